@@ -8,8 +8,8 @@
 #include "verif.h"
 #include "interrogateDatabase.h"
 #include "indexRemapper.h"
-#ifndef FIRST_MAX
-#define FIRST_MAX 1
+#ifndef FIRST
+#define FIRST 1
 #endif
 
 static int pick3(int a, int b) { int c = nondet_int(); ASSUME(c >= 0 && c <= 2); return c == 0 ? 0 : (c == 1 ? a : b); }
@@ -58,8 +58,8 @@ extern "C" void harness_c11_db_remap() {
   db->_global_functions.push_back(7); db->_all_functions.push_back(2); db->_all_functions.push_back(7);
   db->_global_manifests.push_back(8); db->_global_elements.push_back(4);
 
-  int first = nondet_int();
-  ASSUME(first >= 1 && first <= FIRST_MAX);
+  // concrete per query: the new indices are the keys of the six fresh std::maps, a symbolic first makes their shape symbolic
+  int first = FIRST;
   g_first = first;
   IndexRemapper *remap = new IndexRemapper;
   int next = db->remap_indices(first, *remap);
